@@ -43,6 +43,53 @@ Theorem C20_key_incomplete_iff_some_pair_fails : forall (call K result : Type) (
 Proof. exact key_incomplete_iff_some_pair_fails. Qed.
 Print Assumptions C20_key_incomplete_iff_some_pair_fails.
 
+(** a module-level SETTING read by the memoised function (dadi.Integration.timescale_factor, re-bound by plain attribute
+    assignment) is part of the call for the purpose of key completeness: call = (setting, arguments).
+    A key that keeps the setting is transparent ... *)
+Theorem C20_setting_in_key_transparent : forall (S A KA result : Type) (akey : A -> KA) (g : S -> A -> result)
+  (S_dec : forall a b : S, {a = b} + {a <> b}) (KA_dec : forall a b : KA, {a = b} + {a <> b}),
+  (forall s a1 a2, akey a1 = akey a2 -> g s a1 = g s a2) ->
+  forall h : list (st_call S A), results (st_key_full akey) (dec_st_full S KA S_dec KA_dec) (st_f g) h = map (st_f g) h.
+Proof. exact setting_in_key_transparent. Qed.
+Print Assumptions C20_setting_in_key_transparent.
+
+(** ... a memo keyed on the arguments only is NOT: the same call under two values of the setting, one after the other, returns
+    the first value twice (the setting-collision pair of the check; the refutation instance) ... *)
+Theorem C20_setting_outside_key_refuted : forall (S A KA result : Type) (akey : A -> KA) (g : S -> A -> result)
+  (KA_dec : forall a b : KA, {a = b} + {a <> b}) s1 s2 a, g s1 a <> g s2 a ->
+  ~ key_complete (st_key_args (S := S) akey) (st_f g) /\
+  results (st_key_args akey) KA_dec (st_f g) [(s1, a); (s2, a)] = [g s1 a; g s1 a] /\
+  results (st_key_args akey) KA_dec (st_f g) [(s1, a); (s2, a)] <> map (st_f g) [(s1, a); (s2, a)].
+Proof. exact setting_outside_key_refuted_pair. Qed.
+Print Assumptions C20_setting_outside_key_refuted.
+
+(** ... as a user program: call, `module.setting = s2` by plain assignment, the same call - the old value is replayed; a setter
+    that empties the memo repairs the next call but not the one after the value is restored by plain assignment ... *)
+Theorem C20_plain_assignment_replays : forall (S A KA result : Type) (akey : A -> KA) (g : S -> A -> result)
+  (KA_dec : forall a b : KA, {a = b} + {a <> b}) s1 s2 a, g s1 a <> g s2 a ->
+  st_prun akey g KA_dec s1 [] [Call a; Assign s2; Call a] = [g s1 a; g s1 a] /\
+  st_prun akey g KA_dec s1 [] [Call a; Assign s2; Call a] <> st_pspec g s1 [Call a; Assign s2; Call a].
+Proof. exact plain_assignment_replays. Qed.
+
+Theorem C20_setter_then_plain_restore_replays : forall (S A KA result : Type) (akey : A -> KA) (g : S -> A -> result)
+  (KA_dec : forall a b : KA, {a = b} + {a <> b}) s1 s2 a, g s1 a <> g s2 a ->
+  st_prun akey g KA_dec s1 [] [Call a; Setter s2; Call a; Assign s1; Call a] = [g s1 a; g s2 a; g s2 a] /\
+  st_pspec g s1 [Call a; Setter s2; Call a; Assign s1; Call a] = [g s1 a; g s2 a; g s1 a].
+Proof. exact setter_then_plain_restore_replays. Qed.
+
+(** ... and only programs that never assign the setting directly are safe with such a memo *)
+Theorem C20_setter_only_program_transparent : forall (S A KA result : Type) (akey : A -> KA) (g : S -> A -> result)
+  (KA_dec : forall a b : KA, {a = b} + {a <> b}), (forall s a1 a2, akey a1 = akey a2 -> g s a1 = g s a2) ->
+  forall p s c, st_no_assign p = true -> cache_ok akey KA_dec (g s) c -> st_prun akey g KA_dec s c p = st_pspec g s p.
+Proof. exact setter_only_program_transparent. Qed.
+Print Assumptions C20_setter_only_program_transparent.
+
+Theorem C20_setting_memo_refuted_instance :
+  exists (g : nat -> nat -> nat) (p : list (st_event nat nat)),
+    st_prun (fun a => a) g Nat.eq_dec 10 [] p <> st_pspec g 10 p.
+Proof. exact setting_memo_refuted_instance. Qed.
+Print Assumptions C20_setting_memo_refuted_instance.
+
 (** the six numeric caches of dadi (Numerics._multinomln_cache, _BetaBinomln_cache, _part_cache, _part_precalc_cache,
     _projection_cache, Spectrum_mod._dbeta_cache): the key is the whole argument list, every history is transparent;
     special functions are oracles *)
